@@ -29,7 +29,10 @@ namespace trompeloeil {
     sequence_type(const sequence_type&) = delete;
     sequence_type& operator=(sequence_type&&) = delete;
     sequence_type& operator=(const sequence_type&) = delete;
-    ~sequence_type();
+    ~sequence_type() = default;
+
+    void
+    close();
 
     bool
     is_completed()
@@ -74,10 +77,17 @@ namespace trompeloeil {
   class sequence
   {
   public:
+    sequence() = default;
+    sequence(sequence&&) = default;
+    sequence& operator=(sequence&& r) noexcept { close(); obj = std::move(r.obj); return *this; }
+    ~sequence() { close(); }
     sequence_type& operator*() { return *obj; }
     bool is_completed() const { auto lock = get_lock(); return obj->is_completed(); }
   private:
-    std::unique_ptr<sequence_type> obj{detail::make_unique<sequence_type>()};
+    friend class sequence_matcher;
+    void close() { if (obj) obj->close(); }
+    // shared with the handles of the expectations registered in it, which may outlive this object
+    std::shared_ptr<sequence_type> obj{std::make_shared<sequence_type>()};
   };
 
   class sequence_matcher : public list_elem<sequence_matcher>
@@ -95,10 +105,10 @@ namespace trompeloeil {
       , exp_name(exp)
       , exp_loc(loc)
       , sequence_handler(handler)
-      , seq(*i.second)
+      , seq(i.second.obj)
     {
       auto lock = get_lock();
-      seq.add_last(this);
+      seq->add_last(this);
     }
 
     sequence_matcher(const sequence_matcher&) = delete;
@@ -112,7 +122,7 @@ namespace trompeloeil {
       location loc)
     const
     {
-      seq.validate_match(s, this, seq_name, match_name, loc);
+      seq->validate_match(s, this, seq_name, match_name, loc);
     }
 
     unsigned
@@ -120,7 +130,7 @@ namespace trompeloeil {
     const
     noexcept
     {
-      return seq.cost(this);
+      return seq->cost(this);
     }
 
     bool
@@ -146,7 +156,7 @@ namespace trompeloeil {
     {
       if (this->is_linked())
       {
-        seq.retire_until(this);
+        seq->retire_until(this);
       }
     }
 
@@ -169,7 +179,7 @@ namespace trompeloeil {
     char const *exp_name;
     location    exp_loc;
     const sequence_handler_base& sequence_handler;
-    sequence_type& seq;
+    std::shared_ptr<sequence_type> seq;
   };
 
   inline
@@ -288,7 +298,8 @@ namespace trompeloeil {
   }
 
   inline
-  sequence_type::~sequence_type()
+  void
+  sequence_type::close()
   {
     bool touched = false;
     std::ostringstream os;
